@@ -11,7 +11,7 @@ MANIFEST = dict(
     text="Governance.tla (stake/unstake/voteBP/voteDAO/name create+update/transfer/block boundary with the shared lock timestamp, vote shrinking on unstake, "
          "2/3 threshold for parameter votes effective next block) is model-checked exhaustively (total = sum of stakes = system balance, tally = sum of votes, "
          "vote <= stake, ranking order, voting power = sum of votes, lock periods, minimum, exact unstake, name ownership and price). Every transition of the complete "
-         "graph of a 2-account/3-candidate(with twins)/1-parameter/1-name model is replayed (edge cover) through the real ExecuteSystemTx/ExecuteNameTx on a real BlockState, "
+         "graphs of a 2-account/3-candidate(with twins)/1-parameter/1-name model and of a deeper 1-account model are replayed (edge cover) through the real ExecuteSystemTx/ExecuteNameTx on a real BlockState, "
          "comparing staking, votes, tallies, stored ranking, GetRankers, totals, balances, parameters (memory, pending, state), names and the in-memory voting power rank "
          "(powers, buckets, ranking tree, reward lottery) with a reload from state after every transaction and block; in every state every transaction the model refuses "
          "is tried and must be refused without effect. Seeded random histories (6 accounts, 5 candidates with twins, 3 parameter votes, 3 names, real block numbers "
@@ -31,6 +31,10 @@ RCFG = dict(
     defaults={"BPCOUNT": 3, "STAKINGMIN": 10000, "NAMEPRICE": 1})
 
 
+# candidates of the generation configurations (MC_Governance.tla: C3, C3Key, C3Id)
+GCANDS = {"c1": {"key": 1, "id": 1}, "c2": {"key": 2, "id": 2}, "c3": {"key": 2, "id": 3}}
+
+
 def cfg_constants(cfgfile):
     """Read the scalar constants of a .cfg and resolve the `X <- Name` ones through MC_Governance.tla (only the shapes used there)."""
     txt = open(os.path.join(SPEC_DIR, cfgfile)).read()
@@ -46,7 +50,8 @@ def unesc(line, prefix):
 
 def norm_state(s):
     """JSON state printed by MC_Governance!genState -> the harness' mState (candidates of parameter votes as strings)."""
-    out = dict(h=s["h"], sys=s["sys"], nb=s["nb"], total=s["total"], param=s["param"], pnext=s["pnext"], names=s["names"])
+    out = dict(h=s["h"], sys=s["sys"], nb=s["nb"], total=s["total"], param=s["param"], pnext=s["pnext"],
+               names=s["names"] if isinstance(s["names"], dict) else {})      # the empty function is printed as []
     out["acct"] = {}
     for a, x in s["acct"].items():
         votes = {i: dict(set=v["set"], amt=v["amt"], cands=sorted(str(c) for c in v["cands"])) for i, v in x["vote"].items()}
@@ -143,56 +148,68 @@ def run(c):
               "resp. (history, event)")
     c.assumptions = ["in-memory key-value store stands for the disk store", "governance transactions are executed as chain.executeGovernanceTx does "
                      "(snapshot, ExecuteSystemTx/ExecuteNameTx, stage or roll back), block boundary = ChainStateDB.Apply + system.CommitParams(true)",
-                     "model heights are mapped linearly onto block numbers (86400/StakingDelay blocks per height) in the graph replay; the random histories use real block numbers",
+                     "graph replay: model heights are mapped onto block numbers by three order-preserving maps that keep the lock predicate (43200 blocks per height, and gaps 86399,1,86399,.. / 1,86399,1,.. which place transactions one block inside and exactly at the end of a lock period); the random histories use real block numbers",
                      "TLC 1.8.0"]
     # 1. + 2. design-level check and transition enumeration side by side (both are CPU bound, the machine has 16 cores)
     mc_cfg = "MC_Governance.cfg" if quick else "MC_Governance_big.cfg"
-    gen_cfg = "Gen_Governance.cfg" if quick else "Gen_Governance_big.cfg"
+    gen_cfgs = ["Gen_Governance.cfg", "Gen_Governance_one.cfg"] if quick else ["Gen_Governance_big.cfg", "Gen_Governance_one_big.cfg"]
     box = {}
 
-    def mc():
-        try:
-            box["mc"] = vlib.tlc(SPEC_DIR, "MC_Governance", mc_cfg, os.path.join(c.work, "mc"), workers=8, timeout=1500 if quick else 3000)
-        except Exception as e:      # noqa
-            box["mc_err"] = e
-    th = threading.Thread(target=mc)
-    th.start()
-    gen = vlib.tlc(SPEC_DIR, "MC_Governance", gen_cfg, os.path.join(c.work, "gen"), workers=4, timeout=1500 if quick else 3000)
+    def job(key, cfg, sub, workers):
+        def f():
+            try:
+                box[key] = vlib.tlc(SPEC_DIR, "MC_Governance", cfg, os.path.join(c.work, sub), workers=workers, timeout=1500 if quick else 3000)
+            except Exception as e:      # noqa
+                box[key] = e
+        t = threading.Thread(target=f)
+        t.start()
+        return t
+    th = job("mc", mc_cfg, "mc", 8)
+    gth = [job(g, g, "gen%d" % gi, 3) for gi, g in enumerate(gen_cfgs)]
+    graphs, notes = [], []
+    for gi, gen_cfg in enumerate(gen_cfgs):
+        gth[gi].join()
+        gen = box.pop(gen_cfg)
+        if isinstance(gen, Exception):
+            raise vlib.Infra("TLC (%s) failed to run: %s" % (gen_cfg, gen))
+        c.require_ok(gen, "Governance transition enumeration (%s)" % gen_cfg)
+        scal, _, _ = cfg_constants(gen_cfg)
+        ops, states, edges, enabled, testable, ntr = build_graph(gen.out, scal["MaxOps"])
+        gen.out = ""
+        if ntr != gen.generated - 1 or ntr < 1000:
+            raise vlib.Infra("transition log of %s incomplete: %d lines for %d generated states" % (gen_cfg, ntr, gen.generated))
+        init = 0
+        paths = cover_paths(edges, init, rng)
+        # refusals: in every state whose set of enabled transactions is completely known, every other transaction of the
+        # alphabet must be refused; each such state is probed once, on the first path step that leaves it
+        nrefuse, probed = 0, set()
+        for p in paths:
+            cur = init
+            for st in p:
+                if cur in testable and cur not in probed:
+                    probed.add(cur)
+                    en = enabled.get(cur, set())
+                    st["refuse"] = [i for i in range(len(ops)) if i not in en]
+                    nrefuse += len(st["refuse"])
+                cur = st["dst"]
+        nedges = sum(len(m) for m in edges.values())
+        gcfg = dict(accts=sorted(states[0]["acct"]), cands={k: v for k, v in GCANDS.items() if k in states[0]["tally"]["BP"]},
+                    issues=["BP"] + sorted(i for i in states[0]["tally"] if i != "BP"),
+                    dao_vals={i: sorted(int(k) for k in t) for i, t in states[0]["tally"].items() if i != "BP"},
+                    names=sorted(states[0]["names"]), init_bal=scal["InitBal"], delay=scal["StakingDelay"], defaults=states[0]["param"])
+        if sorted(gcfg["cands"]) != sorted(states[0]["tally"]["BP"]):
+            raise vlib.Infra("candidate table of checks/c15.py does not match %s" % gen_cfg)
+        graphs.append(dict(name=gen_cfg[:-4], cfg=gcfg, ops=ops, states=states, init=init, max_h=max(st["h"] for st in states), paths=paths))
+        notes.append("%s: %d abstract states, %d transitions (edge cover by %d paths, %d steps), %d refusals (the rest of the %d-transaction alphabet) tried in %d states"
+                     % (gen_cfg, len(states), nedges, len(paths), sum(len(p) for p in paths), nrefuse, len(ops), len(probed)))
     th.join()
-    if "mc_err" in box:
-        raise vlib.Infra("TLC (design check) failed to run: %s" % box["mc_err"])
+    if isinstance(box["mc"], Exception):
+        raise vlib.Infra("TLC (design check) failed to run: %s" % box["mc"])
     c.require_ok(box["mc"], "Governance design: accounting invariants, lock periods, minimum, exact unstake, name ownership (%s)" % mc_cfg)
-    c.require_ok(gen, "Governance transition enumeration (%s)" % gen_cfg)
     if not quick:
         deep = vlib.tlc(SPEC_DIR, "MC_Governance", "MC_Governance_deep.cfg", os.path.join(c.work, "mc"), workers=8, timeout=3000)
         c.require_ok(deep, "Governance design, deeper histories of the 2-account model (MC_Governance_deep.cfg)")
-    scal, _, _ = cfg_constants(gen_cfg)
-    ops, states, edges, enabled, testable, ntr = build_graph(gen.out, scal["MaxOps"])
-    if ntr != gen.generated - 1 or ntr < 1000:
-        raise vlib.Infra("transition log incomplete: %d lines for %d generated states" % (ntr, gen.generated))
-    init = 0
-    paths = cover_paths(edges, init, rng)
-    # refusals: in every state whose set of enabled transactions is completely known, every other transaction of the
-    # alphabet must be refused; each such state is probed once, on the first path step that leaves it
-    nrefuse, probed = 0, set()
-    for p in paths:
-        cur = init
-        for st in p:
-            if cur in testable and cur not in probed:
-                probed.add(cur)
-                en = enabled.get(cur, set())
-                st["refuse"] = [i for i in range(len(ops)) if i not in en]
-                nrefuse += len(st["refuse"])
-            cur = st["dst"]
-    nedges = sum(len(m) for m in edges.values())
-    gcfg = dict(accts=sorted(states[0]["acct"]), cands={"c1": {"key": 1, "id": 1}, "c2": {"key": 2, "id": 2}, "c3": {"key": 2, "id": 3}},
-                issues=["BP"] + sorted(i for i in states[0]["tally"] if i != "BP"),
-                dao_vals={i: sorted(int(k) for k in t) for i, t in states[0]["tally"].items() if i != "BP"},
-                names=sorted(states[0]["names"]), init_bal=scal["InitBal"], delay=scal["StakingDelay"], defaults=states[0]["param"])
-    if sorted(gcfg["cands"]) != sorted(states[0]["tally"]["BP"]):
-        raise vlib.Infra("candidate table of checks/c15.py does not match the generation configuration")
-    inp = dict(cfg=gcfg, ops=ops, states=states, init=init, max_h=max(st["h"] for st in states), paths=paths, rcfg=RCFG,
-               random=dict(histories=16 if quick else 240, length=120 if quick else 200), shards=12)
+    inp = dict(graphs=graphs, rcfg=RCFG, random=dict(histories=16 if quick else 240, length=120 if quick else 200), shards=12)
     inpath = os.path.join(c.work, "gov_in.json")
     json.dump(inp, open(inpath, "w"))
     outpath = os.path.join(c.work, "gov_out.json")
@@ -203,9 +220,7 @@ def run(c):
     if rc != 0 and not r.get("violations"):
         raise vlib.Infra("harness failed:\n" + output[-3000:])
     c.exhaustive = True
-    c.extra["exhaustive_note"] = ("exhaustive over the abstract model %s: %d abstract states, %d transitions (edge cover by %d paths, %d steps), "
-                                  "%d refusals (the rest of the %d-transaction alphabet) tried in %d states; the random histories are sampled"
-                                  % (gen_cfg, len(states), nedges, len(paths), sum(len(p) for p in paths), nrefuse, len(ops), len(probed)))
+    c.extra["exhaustive_note"] = "exhaustive over the abstract models " + "; ".join(notes) + "; the random histories are sampled"
     # 3. direction B: what the real contracts did in the random histories, validated by TLC
     if not os.path.exists(tracepath) or os.path.getsize(tracepath) == 0:
         raise vlib.Infra("the harness recorded no trace")
